@@ -81,7 +81,7 @@ mod write_fut;
 #[cfg(feature = "verif")]
 pub mod verif_hooks {
     pub use super::external_links::{
-        external_links_task, LinksTaskState, NoReport, PendingWrites, ReportFailed,
+        external_links_task, LinksTaskConfig, LinksTaskState, NoReport, PendingWrites, ReportFailed,
     };
     pub use super::links::{Links, TriggerUnlink};
     pub use super::{CommandChannelRequest, ExternalLinkRequest};
